@@ -37,7 +37,7 @@ def gen_int_case(rng):
         lit = [1, [lib.cores_lit(A.cores), lib.cores_lit(x0.cores), [int(h) for h in hs], oracles.svd_tape_lit(tape.calls)], states_lit(sol)]
     elif which in ('implicit', 'trapezoidal'):
         g = gen_tt(rng, dims, [1] * order, rranks(rng, order, 2), cplx and rng.random() < 0.7, 'int')
-        hs = [float(rng.choice([2, 4, -2])) for _ in range(rng.randint(1, 2))]
+        hs = [float(rng.choice([2, 4, -2])) for _ in range(rng.randint(1, 3))]
         reps = 1
         tape = oracles.Tape(rng, rng.choice(['arb', 'triv']), cplx=cplx, lo=-1, hi=1)
         snap = snapshot([A, x0, g])
@@ -107,6 +107,9 @@ def side_case(seed):
                 ref.append(normed((I + h * Am) @ ref[-1]))
         elif which in ('implicit', 'trapezoidal'):
             hs = [rng.uniform(0.01, 0.1) for _ in range(rng.randint(1, 3))]
+            if rng.random() < 0.4:      # non-monotone lists that return to an earlier value (stale cached operators)
+                pool = [rng.uniform(0.01, 0.1), rng.uniform(0.1, 0.3)]
+                hs = [pool[0]] + [rng.choice(pool) for _ in range(rng.randint(2, 3))]
             g = gen_tt(rng, dims, [1] * order, max_ranks(dims), cplx, 'float')
             solver = rng.choice(['als', 'mals']) if order >= 2 else 'als'
             f = ode.implicit_euler if which == 'implicit' else ode.trapezoidal_rule
@@ -154,9 +157,9 @@ def side_case(seed):
             Agen = TT(Gm.reshape(dims + dims)) if order > 0 else Ad
             xp = gen_tt(rng, dims, [1] * order, max_ranks(dims), False, 'float', nonneg=True)
             g = xp.copy()
-            tend = rng.uniform(0.05, 0.5)
+            tend = rng.uniform(0.05, 0.5) if rng.random() < 0.6 else rng.uniform(0.002, 0.01)   # short horizons: the first step overshoots
             snap2 = snapshot([Agen, xp, g])
-            sol, times = ode.adaptive_step_size(Agen, xp, g, tend, step_size_first=rng.choice([1e-3, 1e-2]), progress=False)
+            sol, times = ode.adaptive_step_size(Agen, xp, g, tend, step_size_first=rng.choice([1e-3, 1e-2, 2 * tend, 10 * tend]), progress=False)
             if not unchanged([Agen, xp, g], snap2):
                 return 'adaptive_step_size modified an input', desc
             if len(sol) != len(times) or sol[0] is not xp:
